@@ -1,5 +1,6 @@
 import PgFdr.Json
 import PgFdr.Model.C08
+import PgFdr.Model.C08Config
 namespace PgFdr.Driver
 open Lean PgFdr
 
@@ -33,6 +34,86 @@ def handleSites (j : Json) : R Json := do
     let s := seq.toList
     pure (obj [("sites", ofList ofNat ((List.range s.length).filter (fun x => decide (C08.Site r s x))))])
 
+
+/-! ### the configured digestion (`PgFdr/Model/C08Config.lean`) -/
+
+def c08Opt {α} (f : Json → R α) (j : Json) (k : String) : R (Option α) :=
+  match jgetOpt j k with
+  | none => pure none
+  | some v => do pure (some (← f v))
+
+def c08CfgErr : C08.CfgErr → String
+  | .unequalLength => "value_error"
+  | .digest e => errName e
+  | .attributeError => "attribute_error"
+
+def c08OfParams (p : C08.Params) : Json :=
+  obj [("enzyme", .str p.enzyme), ("digestion", .str p.digestion), ("min", ofNat p.minL), ("max", ofNat p.maxL),
+       ("mc", ofNat p.mc), ("special", .str (String.ofList p.special)), ("met", .bool p.met),
+       ("db", .str (if p.dbTarget then "target" else "concat")), ("hash", .bool p.useHash)]
+
+/-- `{"op":"c08_ctor","args":{"enzyme":s|null,"digestion":s|null,"min":n|null,"max":n|null,"mc":n|null,
+    "special":s|null,"contains_decoys":b|null}}` (null / missing = argument omitted) → the attributes -/
+def handleC08Ctor (j : Json) : R Json := do
+  let a ← jget j "args"
+  let args : C08.CtorArgs :=
+    { enzyme := ← c08Opt jstr a "enzyme", digestion := ← c08Opt jstr a "digestion",
+      minLength := ← c08Opt jnat a "min", maxLength := ← c08Opt jnat a "max", cleavages := ← c08Opt jnat a "mc",
+      specialAas := ← c08Opt jstr a "special", containsDecoys := ← c08Opt jbool a "contains_decoys" }
+  pure (c08OfParams (C08.mkParams args))
+
+def c08Opts (o : Json) : R C08.CliOpts := do
+  pure { enzyme := ← c08Opt jstrs o "enzyme", digestion := ← c08Opt jstrs o "digestion",
+         minLength := ← c08Opt (jlist jnat) o "min", maxLength := ← c08Opt (jlist jnat) o "max",
+         cleavages := ← c08Opt (jlist jnat) o "mc", specialAas := ← c08Opt jstrs o "special",
+         containsDecoys := ← jbool (← jget o "contains_decoys") }
+
+def c08Files (j : Json) : R (List C08.Fasta) :=
+  jlist (jlist (fun r => do
+    match ← jarr r with
+    | [a, b] => pure ((← jstr a), (← jstr b).toList)
+    | _ => throw "record: expected [id, seq]")) j
+
+def c08OfSeq (s : C08.Seq) : Json := .str (String.ofList s)
+def c08OfPer (l : List (String × List C08.Seq)) : Json :=
+  ofList (fun kv => Json.arr #[.str kv.1, ofList c08OfSeq kv.2]) l
+
+/-- `{"op":"c08_list","opts":{"enzyme":[…]|null,…,"contains_decoys":b}}` → `{"params":[attributes…]}` | err -/
+def handleC08List (j : Json) : R Json := do
+  let o ← c08Opts (← jget j "opts")
+  match C08.paramsList (C08.argLists o) with
+  | .ok ps => pure (obj [("params", ofList c08OfParams ps)])
+  | .error e => pure (ofErr (c08CfgErr e))
+
+/-- `{"op":"c08_map","opts":…,"files":[[[id,seq],…],…],"ibaq":b}` → `{"proteins":[[id,[keys…]],…]}` | err -/
+def handleC08Map (j : Json) : R Json := do
+  let o ← c08Opts (← jget j "opts")
+  let files ← c08Files (← jget j "files")
+  let ibaq ← jbool (← jget j "ibaq")
+  match C08.configMap o files ibaq with
+  | .ok m => pure (obj [("proteins", c08OfPer m)])
+  | .error e => pure (ofErr (c08CfgErr e))
+
+def c08OfOpt {α} (f : α → Json) : Option α → Json
+  | none => .null
+  | some x => f x
+
+/-- `{"op":"c08_main","opts":…,"files":…,"prosit":b,"map":b,"ibaq":b}` → the written files
+    `{"prosit":[[peptide,protein],…]|null,"map":[[id,[keys]],…]|null,"ibaq":[[id,n],…]|null}` | err -/
+def handleC08Main (j : Json) : R Json := do
+  let o ← c08Opts (← jget j "opts")
+  let files ← c08Files (← jget j "files")
+  let wp ← jbool (← jget j "prosit")
+  let wm ← jbool (← jget j "map")
+  let wi ← jbool (← jget j "ibaq")
+  match C08.cliMain o files wp wm wi with
+  | .error e => pure (ofErr (c08CfgErr e))
+  | .ok w =>
+    pure (obj [("prosit", c08OfOpt (ofList (fun r => Json.arr #[c08OfSeq r.1, .str r.2])) w.prosit),
+               ("map", c08OfOpt c08OfPer w.map),
+               ("ibaq", c08OfOpt (ofList (fun kv => Json.arr #[.str kv.1, ofNat kv.2])) w.ibaq)])
+
 /-- protocol handlers of property C08: (op name, handler) -/
-def handlersC08 : List (String × (Json → R Json)) := [("digest", handleDigest), ("sites", handleSites)]
+def handlersC08 : List (String × (Json → R Json)) := [("digest", handleDigest), ("sites", handleSites), ("c08_ctor", handleC08Ctor), ("c08_list", handleC08List),
+   ("c08_map", handleC08Map), ("c08_main", handleC08Main)]
 end PgFdr.Driver
